@@ -129,7 +129,7 @@ def obligations(tier):
     wall = 600 if tier == "quick" else 3000
     K = 4 if tier == "quick" else 8
     o = []
-    o.append(Obl("gensym-injective", gensym_injective, [("c", 0, 1100 if tier == "quick" else 10500), ("which", 0, 2)], functions=[ca.gensym, cp.gensym, pb.gensym], wall_s=wall,
+    o.append(Obl("gensym-injective", gensym_injective, [("c", 0, 1100 if tier == "quick" else 2500), ("which", 0, 2)], functions=[ca.gensym, cp.gensym, pb.gensym], wall_s=wall,
                  bounds="counter states 0..1100 (10500): includes the 999 -> 1000 width change (value-forked: the formatting is a C-level str.format)"))
     o.append(Obl("two-processes", two_processes, [("k1", 0, K), ("k2", 0, K), ("e", 0, 3)],
                  functions=[ca.gensym, cp.gensym, pb.gensym, cp.Plan._new, cp.arrays_to_dag, pb.general_blockwise, pb.fuse_blockwise_specs], wall_s=wall,
